@@ -57,7 +57,7 @@ LEVELS = {
 }
 
 DEFAULT_BUDGET = {"quick": 30.0, "thorough": 420.0}
-PROP_BUDGET = {("C18", "quick"): 18.0}
+PROP_BUDGET = {("C18", "quick"): 30.0}
 
 
 def world(name):
